@@ -268,6 +268,12 @@ class Program:
                 elif isinstance(s, ast.AnnAssign) and isinstance(s.target, ast.Name) and s.value is not None:
                     c.class_attrs[s.target.id] = s.value
                 self._index_stmt(m, s, qual, c, outer)
+            # `visit_x = _shared_body` in the class body: the name is another entry for the same method
+            for s in st.body:
+                if isinstance(s, ast.Assign) and isinstance(s.value, ast.Name) and s.value.id in c.methods:
+                    for t in s.targets:
+                        if isinstance(t, ast.Name) and t.id not in c.methods:
+                            c.methods[t.id] = c.methods[s.value.id]
         elif toplevel and isinstance(st, ast.Assign):
             for t in st.targets:
                 if isinstance(t, ast.Name):
